@@ -529,6 +529,128 @@ def torn_cases(draw, tier):
     return {"lines": draw(st.lists(LINE, max_size=5 if tier == "quick" else 12)), "cut": None,
             "n_other": draw(st.integers(0, 3)), "fail_after": draw(st.integers(0, 12))}
 
+# ------------------------------------------------------------------------------------------------ MemoryCacher: failing getters
+def run_memory(case):
+    """MemoryCacher (alone and behind ConcurrentCacher) over a history of get_set / rmv calls on one key with getters that are
+    values, lists, generators, and generators that raise part-way: a getter that fails leaves no entry; a later caller runs its
+    own getter and receives its complete value; an entry that stays cached is not computed again."""
+    mc = MemoryCacher()
+    c = ConcurrentCacher(mc) if case["via"] == "concurrent" else mc
+    key = "k"
+    model = None          # the cached value, or None
+    for i, op in enumerate(case["ops"]):
+        if op["op"] == "rmv":
+            c.rmv(key); model = None
+            require(key not in c, "key still present after rmv", step=i, case=case)
+            continue
+        want = [f"v{i}-{j}" for j in range(op["n"])]
+        calls = []
+        def gen():
+            calls.append(1)
+            for j, v in enumerate(want):
+                if op["kind"] == "gen_fail" and j == op["fail_at"] % (len(want) + 1): raise Injected("getter")
+                yield v
+            if op["kind"] == "gen_fail": raise Injected("getter")
+        getter = {"list": (lambda: (calls.append(1), list(want))[1]), "gen": gen, "gen_fail": gen, "value": list(want)}[op["kind"]]
+        try:
+            with c.get_set(key, getter) as out:
+                got = list(out)
+        except Injected:
+            require(op["kind"] == "gen_fail" and model is None, "get_set raised the getter's error although the entry was cached or the getter was fine", step=i, case=case)
+            require(key not in c, "a getter that failed part-way left an entry behind", step=i, case=case)
+            if case["via"] == "concurrent":
+                require(set(c._array) == {0} and not any(c._locks.values()), "a lock is still held after the getter failed", step=i, case=case)
+            continue
+        if model is not None:
+            require(got == model, "a cached entry was not served as it was stored", step=i, got=got, want=model, case=case)
+            require(not calls, "the getter ran although the entry was cached", step=i, case=case)
+        else:
+            require(op["kind"] != "gen_fail", "a getter that raises part-way did not raise", step=i, got=got, case=case)
+            require(got == want, "the value returned by get_set is not what the getter produced (an incomplete or stale entry was served)", step=i, got=got, want=want, case=case)
+            model = want
+        if case["via"] == "concurrent":
+            require(set(c._array) == {0} and not any(c._locks.values()), "a lock is still held after the with-block", step=i, case=case)
+
+@st.composite
+def memory_cases(draw, tier):
+    ops = []
+    for _ in range(draw(st.integers(1, 6))):
+        if draw(st.integers(0, 4)) == 0:
+            ops.append({"op": "rmv"})
+        else:
+            ops.append({"op": "get_set", "kind": draw(st.sampled_from(["list", "gen", "gen_fail", "gen_fail", "value"])), "n": draw(st.integers(0, 4)), "fail_at": draw(st.integers(0, 4))})
+    return {"via": draw(st.sampled_from(["memory", "concurrent"])), "ops": ops}
+
+def nontrivial_memory(case):
+    kinds = [op.get("kind") for op in case["ops"]]
+    return "gen_fail" in kinds and len(case["ops"]) >= 2
+
+# ------------------------------------------------------------------------------------------------ OpenmlSource over a torn cache file
+OPENML_DATA = {"data_set_description": {"id": "7", "name": "demo", "file_id": "77", "default_target_attribute": "y", "status": "active"}}
+OPENML_FEAT = {"data_features": {"feature": [
+    {"index": "0", "name": "a", "data_type": "numeric", "is_target": "false", "is_ignore": "false", "is_row_identifier": "false"},
+    {"index": "1", "name": "y", "data_type": "nominal", "is_target": "true", "is_ignore": "false", "is_row_identifier": "false"}]}}
+
+def run_openml_torn(case):
+    """OpenmlSource(data_id).read() over ConcurrentCacher(DiskCacher) whose cached files were written by coba itself and one of
+    which is then cut at a byte: the reader either receives exactly the complete rows, or the rows it was handed before an
+    exception form a prefix of them - a torn entry is never served as, or mixed into, the complete data. A later read works."""
+    import json as _json
+    from coba.context import CobaContext, NullLogger
+    from coba.environments.openml import OpenmlSource
+    n_rows = case["rows"]
+    arff = ["@relation demo", "@attribute a numeric", "@attribute y {0,1}", "@data"] + [f"{i},{i % 2}" for i in range(n_rows)]
+    docs = {"data/7": [_json.dumps(OPENML_DATA)], "features/7": [_json.dumps(OPENML_FEAT)], "download/77": arff}
+    requests = []
+    def http(self, url, *a, **kw):
+        requests.append(url)
+        for k, v in docs.items():
+            if url.endswith(k):
+                yield from v
+                return
+        raise AssertionError("unexpected url " + url)
+    tmp = tempfile.mkdtemp(prefix="verif-c19o-")
+    old = (CobaContext.cacher, CobaContext.logger, OpenmlSource._http_request)
+    try:
+        CobaContext.cacher = ConcurrentCacher(DiskCacher(tmp))
+        CobaContext.logger = NullLogger()
+        OpenmlSource._http_request = http
+        def rows_of(src):
+            out = []
+            try:
+                for r in src.read():
+                    out.append((list(r[0]) if not isinstance(r[0], dict) else dict(r[0]), r[1]) if isinstance(r, tuple) else list(r))
+            except Exception as e:
+                return out, e
+            return out, None
+        full, exc = rows_of(OpenmlSource(data_id=7))
+        require(exc is None and len(full) == n_rows, "the first (uncached) read failed", exc=repr(exc), rows=len(full), case=case)
+        key = OpenmlSource(data_id=7)._cache_keys[case["which"]]
+        path = os.path.join(tmp, key + ".gz")
+        require(os.path.exists(path), "cache file not where expected", path=path)
+        data = open(path, "rb").read()
+        cut = case["cut"] % len(data)
+        with open(path, "wb") as fh:
+            fh.write(data[:cut])
+        got, exc = rows_of(OpenmlSource(data_id=7))
+        info = dict(case, cut=cut, of=len(data))
+        if exc is None:
+            require(got == full, "a read over a torn cache file returned something else than the complete rows", got_rows=len(got), want_rows=len(full), case=info)
+        else:
+            require(got == full[:len(got)], "the rows handed out before the error are not a prefix of the complete rows", got_rows=len(got), exc=repr(exc)[:200], case=info)
+        cc = CobaContext.cacher
+        require(set(cc._array) == {0} and not any(cc._locks.values()), "a lock is still held after reading over a torn cache file", case=info)
+        again, exc2 = rows_of(OpenmlSource(data_id=7))
+        if exc is not None:   # the failed read cleared the source's keys: the next read downloads everything again and is complete
+            require(exc2 is None and again == full, "the read after a failed read over a torn cache file is not complete", exc=repr(exc2)[:200], got_rows=len(again), case=info)
+    finally:
+        CobaContext.cacher, CobaContext.logger, OpenmlSource._http_request = old
+        shutil.rmtree(tmp, ignore_errors=True)
+
+@st.composite
+def openml_torn_cases(draw, tier):
+    return {"rows": draw(st.sampled_from([1, 3, 40, 400])), "which": draw(st.sampled_from(["arff", "arff", "arff", "data", "feat"])), "cut": draw(st.integers(0, 5000))}
+
 # ------------------------------------------------------------------------------------------------ real threads (sampled OS schedules)
 class NoSched:
     """Stand-in scheduler for real-thread runs: yield points only invite the OS to switch threads."""
@@ -826,6 +948,10 @@ SUBCHECKS = [
         what="complete enumeration of all schedules with <= k preemptions of fixed programs over a 7-operation alphabet (incl. nested get_set on the same key and on another key): quick = two one-operation callers, k=1; thorough = the same with k=2, plus two callers with up to two operations and three one-operation callers with k=1"),
     Sub(name="torn", run=run_torn, strategy=torn_cases, nontrivial=lambda c: len(c["lines"]) >= 1, quick=150, thorough=4000,
         quick_shards=2, what="DiskCacher: every byte prefix of a written .gz left on disk, read back directly and through ConcurrentCacher; getters failing after j lines"),
+    Sub(name="memory", run=run_memory, strategy=memory_cases, nontrivial=nontrivial_memory, quick=1500, thorough=40000, quick_shards=1, thorough_shards=4,
+        what="MemoryCacher alone and behind ConcurrentCacher over histories of get_set/rmv with value, list, generator and part-way failing generator getters: a failed getter leaves no entry and no lock, later callers get their own complete value, cached entries are not recomputed"),
+    Sub(name="openml_torn", run=run_openml_torn, strategy=openml_torn_cases, nontrivial=lambda c: True, quick=150, thorough=6000, quick_shards=2, thorough_shards=8, quick_budget_s=50,
+        what="OpenmlSource.read over ConcurrentCacher(DiskCacher) with one of its cache files (written by coba itself) cut at a byte: complete rows, or an exception after a prefix of them; no lock left; the next read is complete"),
     Sub(name="threads_real", run=run_real_threads, strategy=real_thread_cases, nontrivial=contended, classes=classes_sched, key=key_sched,
         quick=300, thorough=20000, quick_shards=2, what="the same generated caller programs on real threads with a real Lock (OS schedules sampled, switch interval 10 us); same monitor and quiescence oracle"),
     Sub(name="procs_fixed", run=run_real_procs, enumerate=procs_fixed, nontrivial=lambda c: True, quick_shards=3, thorough_shards=3, quick_budget_s=60,
